@@ -373,4 +373,14 @@ example :
     (run cfgNow {} ops).entries ⟨att, 0, 0⟩ = [] ∧ (run cfgNow {} ops).acc ⟨att, 0, 0⟩ = [⟨1, 0, 0⟩, ⟨2, 3, 0⟩] := by
   decide
 
+-- why `OKOp` forbids trimming a duty while calls for it are between `Add` and `store`: two such
+-- calls re-store after the trim and the key is aggregated a second time (the deadline lies several
+-- slots behind every legitimate arrival, so the contract excludes this schedule)
+example :
+    let ops : List Op :=
+      callOps 0 att .scheduled [ent 0 1 0] false 0 false ++ callOps 1 att .scheduled [ent 0 2 0] false 0 false ++
+      [.begin 2 att .scheduled [ent 0 1 0] false, .begin 3 att .scheduled [ent 0 2 0] false, .trim att,
+       .step 2 0, .step 3 0, .finish 2 false, .finish 3 false]
+    (run cfgFix2 {} ops).trace.length = 2 := by decide
+
 end CharonV.ParSigDB
